@@ -1122,6 +1122,16 @@ def call_builtin(it, f, args, kwargs, node):
         x = args[0]
         if isinstance(x, VObj) and x.inst.cls is not None:
             return VClass(x.inst.cls)
+        k = x.kind if isinstance(x, (VNum, VConst)) else None
+        names = {"float": "builtins.float", "int": "builtins.int", "bool": "builtins.bool", "str": "builtins.str", "none": "builtins.NoneType", "npfloat": "numpy.float64"}
+        if k in names:
+            return VExt(names[k])
+        if isinstance(x, VTens):
+            return VExt("torch.Tensor" if x.kind == "tensor" else "numpy.ndarray")
+        if isinstance(x, VDict):
+            return VExt("builtins.dict")
+        if isinstance(x, VList):
+            return VExt("builtins.list")
         return VUnknown("type", "unknown")
     if f in ("all", "any"):
         items = it.concrete_items(args[0])
